@@ -660,7 +660,7 @@ def execute(plan):
             if sub is None:
                 out.append(None)
             else:
-                out.append(core.run_in_child(exec_stream, sub, 60))     # one pristine process per fault
+                out.append(core.run_in_child(exec_stream, sub, 300))    # one pristine process per fault
         return {'subs': out}
     if fam == 'c12-trunc':
         return exec_trunc(plan)
